@@ -360,6 +360,27 @@ func checkC08(w *Worker) {
 		x.Case(fmt.Sprint(sc.Name, ci), true)
 		runOne(x, map[string]string{"food.yaml": renderBook(sc.Book), "log.yaml": renderLog(sc.Log)}, c08Cmds[ci], "specials")
 	})
+	// ---- books that nest and share at once: few recipes, astronomically many paths - a command that walks paths instead of
+	// recipes does not come back (the watchdog reports the case)
+	w.Explore("nesting-and-sharing-books", ExploreOpts{ShardDepth: 3, NoAudit: true}, func(x *Exec) {
+		shape := x.Choose(4, "input:levels-x-width")
+		ci := x.Choose(7, "input:command")
+		src := x.Choose(2, "input:limit-source")
+		L, W, depth := []int{30, 44, 9, 9}[shape], []int{2, 2, 14, 4}[shape], []string{"100", "100", "", ""}[shape]
+		cmd := []c08Cmd{{nil, []string{"reg"}}, {nil, []string{"csv", "database-resolved"}}, {nil, []string{"report", "element-total", "cal"}}, {nil, []string{"bal", "-s", "cal"}},
+			{nil, []string{"report", "totals"}}, {nil, []string{"summary", "2021/01/24"}}, {nil, []string{"report", "unresolved"}}}[ci]
+		files := map[string]string{"food.yaml": c08Lattice(L, W), "log.yaml": "2021/01/24:\n  l00/r00: 1\n  l01/r00: 2\n"}
+		if depth != "" {
+			if src == 0 {
+				cmd.Global = []string{"--maxdepth", depth}
+			} else {
+				files["depth.cfg"] = "[Resolver]\nMaxDepth=" + depth + "\n"
+				cmd.Global = []string{"--config", "depth.cfg"}
+			}
+		}
+		x.Case(fmt.Sprint(shape, ci, src), true)
+		runOne(x, files, cmd, "lattice")
+	})
 	// ---- cycles of every length <= 4 and deep chains against every depth limit, incl. an absurd one
 	depths := []string{"1", "2", "3", "10", "100000", "2000000000"}
 	w.Explore("cycles-and-depth-limits", ExploreOpts{ShardDepth: 3, NoAudit: true}, func(x *Exec) {
@@ -379,6 +400,25 @@ func checkC08(w *Worker) {
 		x.Case(fmt.Sprint(cyc, tail, depth, ci), true)
 		runOne(x, map[string]string{"food.yaml": sb.String(), "log.yaml": "2021/01/24:\n  t0: 1\n  c0: 1\n"}, cmd, "cycles")
 	})
+}
+
+// c08Lattice: L levels of W recipes, every recipe of a level using every recipe of the next (nesting and sharing at once:
+// W^L paths through L*W recipes)
+func c08Lattice(L, W int) string {
+	var sb strings.Builder
+	for l := 0; l < L; l++ {
+		for w := 0; w < W; w++ {
+			sb.WriteString(fmt.Sprintf("l%02d/r%02d:\n", l, w))
+			if l == L-1 {
+				sb.WriteString("  cal: 1\n")
+				continue
+			}
+			for v := 0; v < W; v++ {
+				sb.WriteString(fmt.Sprintf("  l%02d/r%02d: 1\n", l+1, v))
+			}
+		}
+	}
+	return sb.String()
 }
 
 func ifs(c bool, a, b string) string {
